@@ -45,7 +45,7 @@ type Obs struct {
 type gate struct {
 	mu      sync.Mutex
 	cond    *sync.Cond
-	waiting map[string]chan struct{}
+	waiting map[string][]chan struct{} // several arrivals of one event (a provider invoked twice) queue up
 	order   []string // arrival order of currently waiting events
 	fail    map[string]error
 	drain   bool
@@ -60,7 +60,7 @@ func (g *gate) arrive(ev string) {
 		g.mu.Unlock()
 		return
 	}
-	g.waiting[ev] = ch
+	g.waiting[ev] = append(g.waiting[ev], ch)
 	g.order = append(g.order, ev)
 	g.cond.Broadcast()
 	g.mu.Unlock()
@@ -82,8 +82,9 @@ func (g *gate) release(ev string, d time.Duration) bool {
 	g.mu.Lock()
 	defer g.mu.Unlock()
 	for {
-		if ch, ok := g.waiting[ev]; ok {
-			delete(g.waiting, ev)
+		if chs := g.waiting[ev]; len(chs) > 0 {
+			ch := chs[0]
+			g.waiting[ev] = chs[1:]
 			for i, o := range g.order {
 				if o == ev {
 					g.order = append(g.order[:i], g.order[i+1:]...)
@@ -111,8 +112,10 @@ func (g *gate) startDrain() {
 	g.drain = true
 	for _, ev := range g.order {
 		g.obs = append(g.obs, ev)
-		close(g.waiting[ev])
-		delete(g.waiting, ev)
+		if chs := g.waiting[ev]; len(chs) > 0 {
+			close(chs[0])
+			g.waiting[ev] = chs[1:]
+		}
 	}
 	g.order = nil
 }
@@ -120,7 +123,7 @@ func (g *gate) startDrain() {
 // Force runs one job on the real injector.
 func Force(c *rt.Case, j Job) Obs {
 	o := Obs{Pkg: j.Pkg, Scenario: j.Scenario}
-	g := &gate{waiting: map[string]chan struct{}{}, fail: map[string]error{}}
+	g := &gate{waiting: map[string][]chan struct{}{}, fail: map[string]error{}}
 	g.cond = sync.NewCond(&g.mu)
 	for _, f := range j.Fail {
 		g.fail[f] = errors.New("fail:" + f)
